@@ -886,9 +886,28 @@ pub fn judge_hard(prep: &Prepared, t: &Tuple, direct: &ChildResult, st: &Staged)
     None
 }
 
+/// Sources the in-process front end does not accept (a foreign first line, a byte-order mark, ...): no reference bytes exist, but
+/// the command line still has to agree with itself — what `fml run` accepts and runs, the staged route accepts and runs alike.
+pub fn cli_only_judgement(source: &str, t: &Tuple) -> Option<Verdict> {
+    let direct = run_direct(source, t.profile, 17);
+    if !direct.exit.is_success() { return None; } // run does not accept it either: nothing is claimed
+    let st = run_staged(source, t);
+    let sig = |stage: &str, msg: &str| json!({"engine": ENGINE, "oracle": "O4", "format": t.format.ext(), "stage": stage, "message": msg, "died_by_signal": false, "ast_depth": 0, "json_nesting": 0, "lisp_nesting": 0});
+    if let Some(f) = &st.failed {
+        if f.exit == Exit::Timeout { return None; }
+        return Some(Verdict { oracle: format!("O4:{}_stage_refuses_program_that_run_accepts", f.stage), detail: format!("{} stage ({}) ended with {} on a source that `fml run` runs with exit 0: {}", f.stage, t.format.ext(), f.exit.show(), first_line(&f.message, 140)), signature: sig(f.stage, &f.message) });
+    }
+    if let Some(e) = &st.exec {
+        if e.exit != Exit::Timeout && (e.exit != direct.exit || e.stdout != direct.stdout) {
+            return Some(Verdict { oracle: "O3:staged_execution_differs_from_run".into(), detail: format!("execute: {} with {} bytes of stdout; run: {} with {} bytes", e.exit.show(), e.stdout.len(), direct.exit.show(), direct.stdout.len()), signature: sig("execute", "") });
+        }
+    }
+    None
+}
+
 pub fn replay_case(case: &Case) -> Result<Option<Verdict>, String> {
     let source = case.spec.source().ok_or("no source")?;
-    let prep = match prepare(&source) { Some(p) => p, None => return Ok(None) };
+    let prep = match prepare(&source) { Some(p) => p, None => return Ok(cli_only_judgement(&source, &case.tuple)) };
     if case.tuple.live {
         let direct = run_direct(&source, case.tuple.profile, 17);
         let r = run_live(&source, &case.tuple);
@@ -1227,6 +1246,20 @@ pub fn run(seed: u64, tier: &str, ev: &mut Evidence) -> Vec<Violation> {
     for total in [65_535usize, 65_536, 65_537] {
         specs.push((format!("boundary:pool_of_{}_constants", total), ProgSpec::Source(work::pool_boundary_source(total))));
     }
+    // program texts with what other tools put in front of or behind a source: a `#!` line, a byte-order mark, a form feed, a NUL
+    let n_foreign = if thorough { 2000usize } else { 60 };
+    let foreign_outs: Vec<Option<(Case, Verdict)>> = par_map(n_foreign, |k| {
+        let mut rng = Rng::for_case(seed, "C06", "foreign-text", k as u64);
+        let cfg = GenCfg::small(&mut rng);
+        let body = work::gen_source_spec(&mut rng, &cfg).0.source().unwrap_or_default();
+        let text = match rng.below(6) {
+            0 => format!("#!/usr/bin/env fml\n{}", body), 1 => format!("#!fml run\n{}", body), 2 => format!("\u{feff}{}", body),
+            3 => format!("{}\u{1a}", body), 4 => format!("\u{c}{}", body), _ => format!("#! \n{}\n#!end\n", body),
+        };
+        if prepare(&text).is_some() { return None; } // the in-process front end accepts it: the ordinary pipelines' business
+        let t = Tuple::plain(*rng.pick(&Fmt::ALL), if rng.coin() { Profile::Debug } else { Profile::Release });
+        cli_only_judgement(&text, &t).map(|v| (Case { spec: ProgSpec::Source(text), tuple: t }, v))
+    });
     // one pinned instance of the recorded finding (AST nesting beyond the deserializers' limit), so that its
     // KNOWN-FINDING line is printed exactly while it exists, whatever the seed
     specs.push(("pinned:blocks-nested-200".into(), ProgSpec::Source(nesting_template(0, 200))));
@@ -1261,6 +1294,9 @@ pub fn run(seed: u64, tier: &str, ev: &mut Evidence) -> Vec<Violation> {
     }
     ev.count("batches_of_two_programs_into_one_output_directory", n_batches as u64);
     let mut raw: Vec<(Case, Verdict)> = Vec::new();
+    ev.count("sources_with_a_foreign_first_line_or_tail_judged_on_the_command_line_only", n_foreign as u64);
+    ev.evaluations += n_foreign as u64;
+    raw.extend(foreign_outs.into_iter().flatten());
     let (mut children, mut faults) = (0u64, 0u64);
     for o in outs {
         ev.evaluations += o.evaluations;
